@@ -23,16 +23,19 @@
 (***************************************************************************)
 EXTENDS Monitor
 
+CONSTANT KnownSigs   \* set of "<property>|<signature>" strings of known findings
+
 VARIABLES sid,      \* index into ScenTab
           hw, hr,   \* raw lock environment: exclusive holder / shared-hold count per leaf
           th,       \* per thread: [todo, pc, kl, fin]
           kf,       \* per thread: thread-local "key taken" flag (src/key.rs KeyCell)
           val,      \* per leaf: protected value (number of writes so far)
+          pflag,    \* per collection: poison flag of a Poisonable wrapper (FALSE for other kinds)
           mon,      \* monitor state (Monitor.tla)
           hist,     \* schedule so far (thread ids); observation only, hidden by VIEW
           last      \* events emitted by the last step; observation only, hidden by VIEW
 
-vars == <<sid, hw, hr, th, kf, val, mon, hist, last>>
+vars == <<sid, hw, hr, th, kf, val, pflag, mon, hist, last>>
 
 Threads(d) == 1..d.nt
 
@@ -100,32 +103,69 @@ Rollback(d, fr) ==
 AlgOf(d, c, api) == IF d.C[c].alg = "retry" THEN (IF ApiTry(api) THEN "retrytry" ELSE "retry")
                     ELSE (IF ApiTry(api) THEN "ordtry" ELSE "ord")
 
-BodyPlan(body) == Flatten([i \in 1..Len(body) |->
-                    <<[k |-> "Y"], [k |-> "acc", pos |-> body[i].pos, m |-> body[i].m]>>])
+OpPlan(d, name, c) ==
+  \* a non-acquiring operation: `{:?}` formatting try-locks each leaf it reaches
+  <<[k |-> "opb", name |-> name, c |-> c]>>
+  \o (IF name = "debug" /\ d.C[c].dbg # <<>> THEN <<[k |-> "G", ls |-> d.C[c].dbg, i |-> 1, ph |-> "try"]>> ELSE <<>>)
+  \o <<[k |-> "ope", name |-> name, c |-> c]>>
 
-FailTail == <<[k |-> "ret", res |-> "wouldblock"], [k |-> "fin", keyback |-> TRUE]>>
+BodyOpPlan(d, op) ==
+  CASE op.o = "acc"   -> <<[k |-> "Y"], [k |-> "acc", pos |-> op.pos, m |-> op.m]>>
+    [] op.o = "panic" -> <<[k |-> "Y"], [k |-> "panic"]>>
+    [] op.o = "op"    -> OpPlan(d, op.name, op.c)
+
+BodyPlan(d, body) == Flatten([i \in 1..Len(body) |-> BodyOpPlan(d, body[i])])
+
+Fin(keyback, dropkey) == [k |-> "fin", keyback |-> keyback, dropkey |-> dropkey]
+FailTail == <<[k |-> "ret", res |-> "wouldblock"], Fin(TRUE, FALSE)>>
+
+\* items executed when a guard of collection c is dropped (PoisonRef::drop sets
+\* the flag only while the thread is panicking)
+GuardDrop(d, c, m, panicking) ==
+  IF ~panicking THEN UFrame(d.C[c].decl, m, "guard-drop")
+  ELSE Flatten([i \in 1..Len(d.C[c].gplan) |->
+         LET sg == d.C[c].gplan[i] IN
+         (IF sg.p # 0 THEN <<[k |-> "setp", p |-> sg.p]>> ELSE <<>>) \o UFrame(sg.ls, m, "guard-drop-unwinding")])
+
+\* what the code does when user code panics inside call ca
+UnwindPlan(d, ca) ==
+  LET m == ApiMode(ca.api) IN
+  IF ApiScoped(ca.api)
+  THEN (IF d.C[ca.c].kind = "pois" THEN <<[k |-> "setp", p |-> ca.c]>> ELSE <<>>)   \* Poisonable::scoped_*: own flag only
+       \o UFrame(d.C[ca.c].flat, m, "scope-unwind")
+       \o <<[k |-> "ret", res |-> "panicked"], Fin(ca.key = "lent", ca.key # "lent")>>
+  ELSE GuardDrop(d, ca.c, m, TRUE) \o <<[k |-> "ret", res |-> "panicked"], Fin(FALSE, TRUE)>>
 
 CallPlan(d, ca, ci) ==
   LET m   == ApiMode(ca.api)
       acq == InitA(d, AlgOf(d, ca.c, ca.api), ca.c, m)
   IN
   IF ApiScoped(ca.api)
-  THEN <<[k |-> "call", ci |-> ci]>> \o acq \o <<[k |-> "enter"]>> \o BodyPlan(ca.body) \o <<[k |-> "exit"]>>
+  THEN <<[k |-> "call", ci |-> ci]>> \o acq \o <<[k |-> "enter"]>> \o BodyPlan(d, ca.body) \o <<[k |-> "exit"]>>
        \o UFrame(d.C[ca.c].flat, m, "scope-end")
-       \o <<[k |-> "ret", res |-> "ok"], [k |-> "fin", keyback |-> (ca.key = "lent")]>>
-  ELSE <<[k |-> "call", ci |-> ci]>> \o acq \o <<[k |-> "ret", res |-> "ok"]>> \o BodyPlan(ca.body)
-       \o (IF ca.rel = "forget" THEN <<>> ELSE UFrame(d.C[ca.c].decl, m, "guard-drop"))
-       \o <<[k |-> "fin", keyback |-> (ca.rel = "unlock")]>>
+       \o <<[k |-> "ret", res |-> "auto"], Fin(ca.key = "lent", ca.key # "lent")>>
+  ELSE <<[k |-> "call", ci |-> ci]>> \o acq \o <<[k |-> "ret", res |-> "auto"]>> \o BodyPlan(d, ca.body)
+       \o (IF ca.rel = "forget" THEN <<>> ELSE GuardDrop(d, ca.c, m, FALSE))
+       \o <<Fin(ca.rel = "unlock", ca.rel = "drop")>>
 
-ItemPlan(d, t, pc) == CallPlan(d, d.progs[t][pc], pc)
+ItemPlan(d, t, pc) ==
+  LET it == d.progs[t][pc] IN
+  CASE it.k = "call" -> CallPlan(d, it, pc)
+    [] it.k = "op"   -> OpPlan(d, it.name, it.c)
+    [] OTHER         -> <<[k |-> it.k]>>       \* probe, getkey, dropkey, forgetkey
 
 (***************************************************************************)
 (* Thread-local execution up to the next visible item                      *)
 (*   S == [todo, pc, kl, fin, kf, val, evs]                                *)
 (***************************************************************************)
-Visible(it) == it.k \in {"start", "Y", "A", "U"}
+Visible(it) == it.k \in {"start", "Y", "A", "U", "G"}
 
 CurCall(d, t, S) == d.progs[t][S.pc]
+
+Ev(S, e) == [S EXCEPT !.evs = Append(@, e)]
+
+\* Ok/Err verdicts of the Poisonable wrappers reached by collection c (own wrapper first)
+PoisSnap(d, c, pf) == [i \in 1..Len(d.C[c].pseq) |-> pf[d.C[c].pseq[i]]]
 
 RECURSIVE Run(_, _, _)
 Run(d, t, S) ==
@@ -155,9 +195,17 @@ Run(d, t, S) ==
               [S EXCEPT !.todo = <<>>, !.pc = Len(d.progs[t]), !.fin = TRUE,
                         !.evs = @ \o <<[e |-> "get", t |-> t, some |-> FALSE], [e |-> "done", t |-> t]>>]
     [] it.k = "ret" ->
-         Run(d, t, [S EXCEPT !.todo = rest, !.evs = Append(@, [e |-> "ret", t |-> t, ci |-> S.pc, res |-> it.res])])
+         LET ca   == CurCall(d, t, S)
+             errs == IF it.res = "auto" /\ ~ApiScoped(ca.api) THEN PoisSnap(d, ca.c, S.pf) ELSE S.ps
+             res  == IF it.res # "auto" THEN it.res
+                     ELSE IF d.C[ca.c].kind = "pois" /\ errs # <<>> /\ errs[1] THEN "poisoned" ELSE "ok" IN
+         Run(d, t, [S EXCEPT !.todo = rest, !.ps = errs,
+                      !.evs = Append(@, [e |-> "ret", t |-> t, ci |-> S.pc, res |-> res,
+                                         errs |-> IF it.res = "auto" /\ ~ApiScoped(ca.api) THEN errs ELSE <<>>])])
     [] it.k = "enter" ->
-         Run(d, t, [S EXCEPT !.todo = rest, !.evs = Append(@, [e |-> "enter", t |-> t, ci |-> S.pc])])
+         LET ca == CurCall(d, t, S) IN
+         Run(d, t, [S EXCEPT !.todo = rest, !.ps = PoisSnap(d, ca.c, S.pf),
+                      !.evs = Append(@, [e |-> "enter", t |-> t, ci |-> S.pc, errs |-> PoisSnap(d, ca.c, S.pf)])])
     [] it.k = "exit" ->
          Run(d, t, [S EXCEPT !.todo = rest, !.evs = Append(@, [e |-> "exit", t |-> t, ci |-> S.pc])])
     [] it.k = "acc" ->
@@ -167,12 +215,38 @@ Run(d, t, S) ==
          Run(d, t, [S EXCEPT !.todo = rest, !.val[l] = nv,
                       !.evs = Append(@, [e |-> "acc", t |-> t, ci |-> S.pc, pos |-> it.pos, m |-> it.m,
                                          lid |-> l, seen |-> S.val[l], wrote |-> nv])])
+    [] it.k = "panic" ->
+         Run(d, t, [S EXCEPT !.todo = UnwindPlan(d, CurCall(d, t, S)),
+                      !.evs = Append(@, [e |-> "panic", t |-> t, ci |-> S.pc])])
+    [] it.k = "setp" ->
+         Run(d, t, [S EXCEPT !.todo = rest, !.pf[it.p] = TRUE])
     [] it.k = "fin" ->
-         LET ca == CurCall(d, t, S) IN
          Run(d, t, [S EXCEPT !.todo = rest,
                       !.kl = IF it.keyback THEN "user" ELSE "none",
-                      !.kf = IF it.keyback \/ ca.rel = "forget" THEN S.kf ELSE FALSE,
+                      !.kf = IF it.dropkey THEN FALSE ELSE S.kf,
                       !.evs = Append(@, [e |-> "fin", t |-> t, ci |-> S.pc, keyback |-> it.keyback])])
+    [] it.k = "opb" ->
+         Run(d, t, [S EXCEPT !.todo = rest,
+                      !.evs = Append(@, [e |-> "op", t |-> t, name |-> it.name, c |-> it.c, ph |-> "begin", res |-> ""])])
+    [] it.k = "ope" ->
+         LET res == IF it.name = "is_poisoned" THEN (IF S.pf[it.c] THEN "true" ELSE "false") ELSE "" IN
+         Run(d, t, [S EXCEPT !.todo = rest,
+                      !.pf = IF it.name = "clear_poison" THEN [S.pf EXCEPT ![it.c] = FALSE] ELSE S.pf,
+                      !.evs = Append(@, [e |-> "op", t |-> t, name |-> it.name, c |-> it.c, ph |-> "end", res |-> res])])
+    [] it.k = "probe" ->     \* ThreadKey::get(), dropped at once when Some
+         Run(d, t, [S EXCEPT !.todo = rest, !.evs = Append(@, [e |-> "probe", t |-> t, some |-> ~S.kf])])
+    [] it.k = "getkey" ->
+         IF S.kl = "user" THEN Run(d, t, [S EXCEPT !.todo = rest])
+         ELSE Run(d, t, [S EXCEPT !.todo = rest, !.kf = TRUE, !.kl = IF S.kf THEN "none" ELSE "user",
+                           !.evs = Append(@, [e |-> "get", t |-> t, some |-> ~S.kf])])
+    [] it.k = "dropkey" ->
+         IF S.kl # "user" THEN Run(d, t, [S EXCEPT !.todo = rest])
+         ELSE Run(d, t, [S EXCEPT !.todo = rest, !.kf = FALSE, !.kl = "none",
+                           !.evs = Append(@, [e |-> "dropkey", t |-> t])])
+    [] it.k = "forgetkey" ->
+         IF S.kl # "user" THEN Run(d, t, [S EXCEPT !.todo = rest])
+         ELSE Run(d, t, [S EXCEPT !.todo = rest, !.kl = "none",
+                           !.evs = Append(@, [e |-> "forgetkey", t |-> t])])
 
 (***************************************************************************)
 (* One step of thread t                                                    *)
@@ -188,8 +262,8 @@ StepEnabled(d, t) ==
      it.k = "A" /\ PendingA(d, it).op = "lock"
        => EnvFree(d, hw, hr, PendW(d), PendingA(d, it).l, it.m, t)
 
-LocalOf(t) == [todo |-> th[t].todo, pc |-> th[t].pc, kl |-> th[t].kl, fin |-> th[t].fin,
-               kf |-> kf[t], val |-> val, evs |-> <<>>]
+LocalOf(t) == [todo |-> th[t].todo, pc |-> th[t].pc, kl |-> th[t].kl, fin |-> th[t].fin, ps |-> th[t].ps,
+               kf |-> kf[t], val |-> val, pf |-> pflag, evs |-> <<>>]
 
 \* result: [hw, hr, S]   (S as for Run, S.evs the events of the step)
 StepOf(d, t) ==
@@ -201,6 +275,20 @@ StepOf(d, t) ==
           S |-> Run(d, t, [S0 EXCEPT !.todo = rest, !.evs = <<[e |-> "start", t |-> t]>>])]
     [] it.k = "Y" ->
          [hw |-> hw, hr |-> hr, S |-> Run(d, t, [S0 EXCEPT !.todo = rest])]
+    [] it.k = "G" ->       \* `{:?}`: try_lock_no_key / try_read_no_key, value printed, guard dropped
+         LET l   == it.ls[it.i]
+             md  == IF d.lk[l] = "M" THEN "w" ELSE "r"
+             nxt == IF it.i < Len(it.ls) THEN <<[it EXCEPT !.i = @ + 1, !.ph = "try"]>> ELSE <<>> IN
+         IF it.ph = "try"
+         THEN LET ok == EnvFree(d, hw, hr, PendW(d), l, md, t) IN
+              [hw |-> IF ok /\ md = "w" THEN [hw EXCEPT ![l] = t] ELSE hw,
+               hr |-> IF ok /\ md = "r" THEN [hr EXCEPT ![l][t] = @ + 1] ELSE hr,
+               S  |-> Run(d, t, [S0 EXCEPT !.todo = (IF ok THEN <<[it EXCEPT !.ph = "rel"]>> ELSE nxt) \o rest,
+                                   !.evs = <<[e |-> "try", t |-> t, l |-> l, m |-> md, ok |-> ok]>>])]
+         ELSE [hw |-> IF md = "w" THEN [hw EXCEPT ![l] = 0] ELSE hw,
+               hr |-> IF md = "r" THEN [hr EXCEPT ![l][t] = @ - 1] ELSE hr,
+               S  |-> Run(d, t, [S0 EXCEPT !.todo = nxt \o rest,
+                                   !.evs = <<[e |-> "rel", t |-> t, l |-> l, m |-> md]>>])]
     [] it.k = "U" ->
          LET l   == it.ls[it.i]
              has == IF it.m = "w" THEN hw[l] = t ELSE hr[l][t] > 0
@@ -231,7 +319,7 @@ StepOf(d, t) ==
 (***************************************************************************)
 (* Specification                                                           *)
 (***************************************************************************)
-InitTh(d) == [t \in Threads(d) |-> [todo |-> <<[k |-> "start"]>>, pc |-> 0, kl |-> "none", fin |-> FALSE]]
+InitTh(d) == [t \in Threads(d) |-> [todo |-> <<[k |-> "start"]>>, pc |-> 0, kl |-> "none", fin |-> FALSE, ps |-> <<>>]]
 
 InitFor(s) ==
   LET d == D(s) IN
@@ -241,6 +329,7 @@ InitFor(s) ==
   /\ th = InitTh(d)
   /\ kf = [t \in Threads(d) |-> FALSE]
   /\ val = [l \in 1..d.nl |-> 0]
+  /\ pflag = [c \in 1..d.nc |-> FALSE]
   /\ mon = MonInit(s)
   /\ hist = <<>>
   /\ last = <<>>
@@ -250,9 +339,10 @@ Init == \E s \in 1..Len(ScenTab) : InitFor(s)
 Apply(d, t, ns) ==
   /\ hw' = ns.hw
   /\ hr' = ns.hr
-  /\ th' = [th EXCEPT ![t] = [todo |-> ns.S.todo, pc |-> ns.S.pc, kl |-> ns.S.kl, fin |-> ns.S.fin]]
+  /\ th' = [th EXCEPT ![t] = [todo |-> ns.S.todo, pc |-> ns.S.pc, kl |-> ns.S.kl, fin |-> ns.S.fin, ps |-> ns.S.ps]]
   /\ kf' = [kf EXCEPT ![t] = ns.S.kf]
   /\ val' = ns.S.val
+  /\ pflag' = ns.S.pf
 
 Step(t) ==
   LET d == D(sid) IN
@@ -272,7 +362,7 @@ Finish ==
   /\ AllDone /\ ~mon.ended
   /\ mon' = MonStep(mon, [e |-> "end"])
   /\ last' = <<[e |-> "end"]>>
-  /\ UNCHANGED <<sid, hw, hr, th, kf, val, hist>>
+  /\ UNCHANGED <<sid, hw, hr, th, kf, val, pflag, hist>>
 
 Next == (\E t \in 1..D(sid).nt : Step(t)) \/ Finish
 
@@ -287,10 +377,13 @@ ModelStuck == ~AllDone /\ \A t \in Threads(D(sid)) : ~StepEnabled(D(sid), t)
 \* the model's lock table and the monitor's agree (sanity of the event encoding)
 TablesAgree == mon.hw = hw /\ mon.hr = hr
 
-NoViolation == mon.viol = {}
-NotStuck    == ~ModelStuck
+\* the model reproduces the code as it is, including the defects recorded in
+\* /verif/known_findings.json: exactly those signatures are tolerated
+NoViolation == \A v \in mon.viol : (v.p \o "|" \o v.s) \in KnownSigs
+\* (waiting for a lock whose guard was leaked on purpose is not a deadlock of happylock)
+NotStuck    == ~(ModelStuck /\ mon.leaked = {})
 
-View == <<sid, hw, hr, th, kf, val, mon>>
+View == <<sid, hw, hr, th, kf, val, pflag, mon>>
 EvAlias == [last |-> last, hist |-> hist]
 NotEnded == ~mon.ended
 =============================================================================
